@@ -298,6 +298,48 @@ def _chain(bi, t1, t2, two):
     return same(F, L)
 
 
+ARITY_NAMES = ['xor', 'or', 'maj', 'eq', 'neq', 'one', 'lift', 'exact', 'atleast', 'atmost', 'anybut']
+
+
+def _arity(ni, k, ki, after):
+    """every arity from 1 to 9 (and thresholds 1, 2, k//2, k, k+1) gives the library's substitution, alone and after -T xor 2"""
+    name = ARITY_NAMES[ni]
+    t = [name, k]
+    if name in ('exact', 'atleast', 'atmost', 'anybut'):
+        t.append([1, 2, max(1, k // 2), k, k + 1][ki])
+    if (after and k > 3) or (name in ('xor', 'maj') and k > 5 and after):
+        return True                       # cut: gadget sizes multiply along a chain
+    base = ['and', 1, 1]                   # one positive and one negative unit clause: both gadgets of every arity, linear size
+    chain = ([['xor', 2]] if after else []) + [t]
+    argv = ['-q'] + base
+    for c in chain:
+        argv += ['-T'] + c
+    try:
+        F = run_tool('cnfgen', argv)
+    except CLIError:
+        return len(t) == 3 and t[2] > k          # only a threshold above the arity may be refused
+    L = run_tool('cnfgen', ['-q'] + base)
+    for c in chain:
+        L = _lib_transform(L, c)
+    return same(F, L)
+
+
+def h_e_arity(ni: int, kk: int, after: bool) -> bool:
+    """
+    pre: 0 <= ni <= 6 and 0 <= kk <= 4
+    post: _
+    """
+    return untraced(_arity, pick(ni, 0, 6), [1, 2, 4, 5, 9][pick(kk, 0, 4)], 0, pickb(after))
+
+
+def h_e_arity_thr(ni: int, kk: int, ki: int) -> bool:
+    """
+    pre: 7 <= ni <= 10 and 0 <= kk <= 4 and 0 <= ki <= 4
+    post: _
+    """
+    return untraced(_arity, pick(ni, 7, 10), [1, 2, 3, 5, 9][pick(kk, 0, 4)], pick(ki, 0, 4), False)
+
+
 def h_e_chain_0(t1: int, t2: int) -> bool:
     """
     pre: 0 <= t1 <= 15 and 0 <= t2 <= 6
@@ -630,9 +672,12 @@ def _body(text, marker):
     return [l for l in text.split('\n') if l and not l.startswith(marker)]
 
 
+OUT_BASES = BASES + [['php', 5, 4], ['op', 5], ['and', 20, 15], ['and', 30, 6]]     # 45, 70, 35 and 36 clauses (35 rows to a page)
+
+
 def _output_variants(bi, quiet, varnames, fmt):
     """-q / -v / --varnames / -of select the rendering and change nothing else"""
-    base = BASES[bi]
+    base = OUT_BASES[bi]
     F = run_tool('cnfgen', ['-q'] + base)
     opts = (['-q'] if quiet else ['-v']) + (['--varnames'] if varnames else []) + ['-of', fmt]
     out = io.StringIO()
@@ -651,6 +696,19 @@ def _output_variants(bi, quiet, varnames, fmt):
     else:
         if '\\begin{document}' not in text or text.count('\\begin{align}') < 1:
             return False
+        # the document shows every clause / constraint of the formula the library builds: as many rows, and the same rows
+        # as the library's own rendering of that formula
+        from vlib.xh.c12 import _latex_rows
+        rows = [r for r, _ in _latex_rows(text)[0]]
+        m = len(F)
+        if len(rows) != max(m, 1):
+            return False
+        ref = io.StringIO()
+        F.to_file(ref, fileformat='latex', export_header=not quiet)
+        ref_rows = [r for r, _ in _latex_rows(ref.getvalue())[0]]
+        snippet_rows = [r for r, _ in _latex_rows(F.to_latex())[0]]
+        if rows != ref_rows or len(snippet_rows) != len(rows):
+            return False
     if fmt != 'latex':
         header_lines = [l for l in text.split('\n') if l.startswith(marker + ' ') and not l.startswith(marker + ' varname')
                         and not l.startswith('* #variable=')]
@@ -668,7 +726,7 @@ def _output_variants(bi, quiet, varnames, fmt):
 
 def h_e_output(bi: int, quiet: bool, varnames: bool, fi: int) -> bool:
     """
-    pre: 0 <= bi <= 5 and 0 <= fi <= 2
+    pre: 0 <= bi <= 9 and 0 <= fi <= 2
     post: _
     """
-    return untraced(_output_variants, pick(bi, 0, 5), pickb(quiet), pickb(varnames), ['dimacs', 'opb', 'latex'][pick(fi, 0, 2)])
+    return untraced(_output_variants, pick(bi, 0, 9), pickb(quiet), pickb(varnames), ['dimacs', 'opb', 'latex'][pick(fi, 0, 2)])
